@@ -491,3 +491,73 @@ func ruleRawCBORAlphabet(r *Run, p *Prog) {
 	ok := len(vars) == 1 && vars["StdEncoding"]
 	r.Ob("ELEM", "appendCBOR/base64-alphabet", p.Pos(f.Pos()), ok, true, tern(ok, "RawCBOR is rendered with base64.StdEncoding (the documented data:application/cbor;base64 form)", fmt.Sprintf("RawCBOR is rendered with base64.%v instead of the standard alphabet: the documented text form does not decode back to the logged bytes", keysOf(vars))))
 }
+
+// ruleNetText: the documented text form of IP addresses, prefixes and MAC addresses is the net
+// package's own String(): every value the JSON appenders of these types hand to the string
+// appender is `<parameter>.String()` — a hand-written fast path ("address/ones") is right for the
+// common representations and wrong for a rare one (an IPv4-mapped prefix with a 16-byte mask).
+func ruleNetText(r *Run, p *Prog) {
+	as := p.Method("internal/json", "Encoder", "AppendString")
+	for _, nm := range []string{"AppendIPAddr", "AppendIPPrefix", "AppendMACAddr"} {
+		f := p.Method("internal/json", "Encoder", nm)
+		if !r.Anchor(f != nil && as != nil, "ELEM", "json.Encoder."+nm) {
+			continue
+		}
+		v := p.View(f, "keep-AppendString", func(g *ssa.Function) bool { return g == as })
+		if len(v.Params) < 3 {
+			continue
+		}
+		val := v.Params[2]
+		n, okAll, why := 0, true, ""
+		eachInstr(v, func(b *ssa.BasicBlock, i int, in ssa.Instruction) {
+			c, ok := in.(*ssa.Call)
+			if !ok {
+				return
+			}
+			isText := staticCallee(&c.Call) == as
+			if bn := builtinName(&c.Call); bn == "append" && isByteSlice(c.Type()) {
+				// any other way of writing text (constant quotes aside) is a hand-made rendering
+				spread, elems := appendElems(c)
+				if spread != nil {
+					if _, isConst := constString(spread); !isConst {
+						okAll, why = false, "appends "+descr(spread)+" itself"
+					}
+				}
+				for _, e := range elems {
+					if e != nil {
+						if _, isC := constInt(e); !isC {
+							okAll, why = false, "appends "+descr(e)+" itself"
+						}
+					}
+				}
+				return
+			}
+			if !isText || len(c.Call.Args) < 3 {
+				return
+			}
+			n++
+			sc, ok := c.Call.Args[2].(*ssa.Call)
+			good := false
+			if ok {
+				if o := calleeObj(&sc.Call); o != nil && o.Name() == "String" && o.Pkg() != nil && o.Pkg().Path() == "net" && len(sc.Call.Args) == 1 {
+					recv := sc.Call.Args[0]
+					// value receivers are spilled: (&local).String() with local = the parameter
+					if recv == ssa.Value(val) {
+						good = true
+					} else if al, isAl := recv.(*ssa.Alloc); isAl {
+						for _, ref := range referrersOf(al) {
+							if st, ok := ref.(*ssa.Store); ok && st.Addr == ssa.Value(al) && st.Val == ssa.Value(val) {
+								good = true
+							}
+						}
+					}
+				}
+			}
+			if !good {
+				okAll, why = false, "renders "+descr(c.Call.Args[2])
+			}
+		})
+		okc := okAll && n > 0
+		r.Ob("ELEM", FnName(f)+"/net-text", p.Pos(f.Pos()), okc, true, tern(okc, "rendered as the net package's String() of the value", nm+" "+why+" instead of the value's own String(): some representations of the same address/prefix are rendered in another text form than the documented one"))
+	}
+}
